@@ -155,3 +155,62 @@ def histories(tier, seed):
 
 native_check("C08", "views-agree-with-a-posix-search-after-every-step", "bounded", histories,
              doc="FS / $PATH operation histories interleaved with lookups through every view")
+
+
+def permission_bits(tier, seed):
+    """every combination of the nine permission bits that matters for `may this process execute it` on a/tool (b/tool is a plain 0755 fallback):
+    lookup, `in`, the listing and locate_binary agree with what the KERNEL answers for this process (os.access / execvp), whoever owns the file"""
+    from xonsh.built_ins import XSH
+    from xonsh.environ import Env
+    from xonsh.commands_cache import CommandsCache
+    from xonsh.procs.executables import locate_executable
+
+    saved_env, saved_cc, cwd0 = XSH.env, XSH.commands_cache, os.getcwd()
+    root = tempfile.mkdtemp(prefix="xv-c08p-", dir=os.environ.get("XV_SCRATCH"))
+    failures, n, samples = [], 0, []
+    try:
+        for ubits in range(8):
+            for gbits in range(8):
+                for obits in (0, 1, 4, 5, 7):
+                    mode = (ubits << 6) | (gbits << 3) | obits
+                    n += 1
+                    base = os.path.join(root, "m%03o" % mode)
+                    os.makedirs(os.path.join(base, "a"))
+                    os.makedirs(os.path.join(base, "b"))
+                    for d_, m_ in (("a", mode), ("b", 0o755)):
+                        p = os.path.join(base, d_, "tool")
+                        with open(p, "w") as f:
+                            f.write("#!/bin/sh\necho %s\n" % d_)
+                        os.chmod(p, m_)
+                    env = Env({"PATH": [os.path.join(base, "a"), os.path.join(base, "b")], "XONSH_COMMANDS_CACHE_READ_DIR_ONCE": ""})
+                    XSH.env = env
+                    cc = CommandsCache(env)
+                    XSH.commands_cache = cc
+                    want = _posix_search("tool", list(env["PATH"]), base)
+                    obs = None
+                    try:
+                        got = locate_executable("tool")
+                        lb = cc.locate_binary("tool")
+                        if (os.path.realpath(got) if got else None) != want:
+                            obs = "locate_executable('tool') is %r, the kernel (os.access X_OK, as execvp) chooses %r" % (got, want)
+                        elif (os.path.realpath(lb) if lb else None) != want:
+                            obs = "commands_cache.locate_binary('tool') is %r, the kernel chooses %r" % (lb, want)
+                        elif ("tool" in cc) != (want is not None):
+                            obs = "('tool' in commands_cache) is %r, the kernel chooses %r" % ("tool" in cc, want)
+                    except Exception as e:  # noqa
+                        obs = "%s: %s" % (type(e).__name__, e)
+                    shutil.rmtree(base, ignore_errors=True)
+                    if obs and len(failures) < 5:
+                        failures.append({"clause": "the first executable regular file is the one the kernel would execute for this process", "inputs": {"mode of a/tool": "%04o" % mode, "uid": os.getuid()}, "observed": obs})
+                    elif not obs and len(samples) < 3 and mode in (0o675, 0o070, 0o455):
+                        samples.append({"mode of a/tool": "%04o" % mode})
+    finally:
+        XSH.env, XSH.commands_cache = saved_env, saved_cc
+        os.chdir(cwd0)
+        shutil.rmtree(root, ignore_errors=True)
+    return {"kind": "bounded", "evaluations": n, "distinct_nontrivial": n, "failures": failures, "exhaustive": False,
+            "bound": "320 permission modes of the first candidate (all user x group bits, 5 other-bit patterns), one fallback candidate; process uid %d" % os.getuid(),
+            "domain": "real locate_executable / CommandsCache on real files vs os.access", "samples": samples}
+
+
+native_check("C08", "executable-means-what-the-kernel-says-for-this-process", "bounded", permission_bits, doc="permission-bit combinations on real files")
